@@ -52,14 +52,35 @@ def relevant_for(prop):
     return rel
 
 
+def prove_all(ctx, parts):
+    """kernel-check several property modules and add up the bookkeeping"""
+    tot = {"obligations": 0, "discharged": 0, "axioms": {}, "property_theorems": [], "checker_cmd": []}
+    for module, theorems, targets in parts:
+        ctx.prove(module, theorems, extra_targets=targets)
+        tot["obligations"] += ctx.cov.get("obligations", 0)
+        tot["discharged"] += ctx.cov.get("discharged", 0)
+        tot["axioms"].update(ctx.cov.get("axioms", {}))
+        tot["property_theorems"] += ctx.cov.get("property_theorems", [])
+        tot["checker_cmd"].append(ctx.cov.get("checker_cmd", ""))
+    ctx.cov.update({k: v for k, v in tot.items() if k != "checker_cmd"})
+    ctx.cov["checker_cmd"] = " ; ".join(tot["checker_cmd"])
+
+
 def run(ctx):
     t = TABLE[ctx.prop]
-    ctx.prove(t["module"], t["theorems"], extra_targets=DRIVERS)
+    parts = [(t["module"], t["theorems"], DRIVERS)]
+    m2 = None
+    if ctx.prop == "C08":
+        from . import c08m2 as m2
+        parts.append((m2.MODULE, m2.THEOREMS, [m2.DRIVER]))
+    prove_all(ctx, parts)
     ex = rtx.Explorer(ctx)
     if not ex.build():
         return
     rel = relevant_for(ctx.prop)
     rtx.run_corpus(ctx, ex, ctx.prop, rel)
+    if m2 is not None:
+        m2.run_m2(ctx, ex)       # control plane: device open/close/set/start/stop per API call, model M2 vs the real runtime
     thorough = ctx.tier == "thorough"
     nscen, nsched = (60, 14) if thorough else (12, 7)
     rtx.explore(ctx, ex, t["classes"], nscen, nsched, rel)
